@@ -641,3 +641,22 @@ func (t *tailBuf) Write(p []byte) (int, error) {
 }
 
 func (t *tailBuf) String() string { return string(t.b) }
+
+// NormStack keeps the function names of the top n frames of a stack trace (no goroutine ids,
+// addresses or argument values), so that violation messages are deterministic across replays.
+func NormStack(s string, n int) string {
+	var out []string
+	for _, l := range strings.Split(s, "\n") {
+		if l == "" || l[0] == '\t' || strings.HasPrefix(l, "goroutine ") || strings.HasPrefix(l, "created by") {
+			continue
+		}
+		if i := strings.LastIndexByte(l, '('); i > 0 {
+			l = l[:i]
+		}
+		out = append(out, "        at "+l)
+		if len(out) == n {
+			break
+		}
+	}
+	return strings.Join(out, "\n")
+}
